@@ -6,6 +6,8 @@ import (
 	"math/rand"
 	"strings"
 
+	"google.golang.org/protobuf/proto"
+
 	raft "go.etcd.io/raft/v3"
 	"go.etcd.io/raft/v3/confchange"
 	pb "go.etcd.io/raft/v3/raftpb"
@@ -271,6 +273,7 @@ func randChanges(rng *rand.Rand, maxN int, ids int) [][2]uint64 {
 }
 
 func confchangeStream(rng *rand.Rand, thorough bool) {
+	ccdecodeCases(rng, thorough)
 	// exhaustive: from every start built by adding voters 1..k (k = 1..3) and an optional
 	// learner, every list of up to two changes over ids 1..4 as Simple and as EnterJoint
 	// (both auto-leave settings), followed by LeaveJoint
@@ -352,6 +355,95 @@ func confchangeStream(rng *rand.Rand, thorough bool) {
 		}
 		emitCC(ops)
 	}
+}
+
+// ---------- decoding of configuration-change payloads (CD): what the propose-time check sees ----------
+
+func ccV2Str(cc *pb.ConfChangeV2) string {
+	var w []string
+	for _, c := range cc.GetChanges() {
+		w = append(w, fmt.Sprintf("%d.%d", int(c.GetType()), c.GetNodeId()))
+	}
+	ch := "_"
+	if len(w) > 0 {
+		ch = strings.Join(w, ",")
+	}
+	return fmt.Sprintf("%d;%s", int(cc.GetTransition()), ch)
+}
+
+func emitCD(typ pb.EntryType, data []byte) {
+	res := "ERR"
+	func() {
+		defer func() { recover() }()
+		switch typ {
+		case pb.EntryConfChange:
+			cc := &pb.ConfChange{}
+			if proto.Unmarshal(data, cc) == nil {
+				res = ccV2Str(cc.AsV2())
+			}
+		case pb.EntryConfChangeV2:
+			cc := &pb.ConfChangeV2{}
+			if proto.Unmarshal(data, cc) == nil {
+				res = ccV2Str(cc)
+			}
+		}
+	}()
+	t := "C"
+	if typ == pb.EntryConfChangeV2 {
+		t = "V"
+	}
+	fmt.Fprintf(out, "CD|%s|%s|%s\n", t, enc.Hex(data), res)
+}
+
+func ccdecodeCases(rng *rand.Rand, thorough bool) {
+	rounds := 1500
+	if thorough {
+		rounds = 30000
+	}
+	for r := 0; r < rounds; r++ {
+		id := uint64(rng.Intn(7))
+		if rng.Intn(10) == 0 {
+			id = rng.Uint64()
+		}
+		if rng.Intn(2) == 0 {
+			cc := &pb.ConfChange{Type: pb.ConfChangeType(rng.Intn(4)).Enum(), NodeId: new(id)}
+			if rng.Intn(4) == 0 {
+				cc.Id = new(uint64(rng.Intn(300)))
+			}
+			if rng.Intn(4) == 0 {
+				cc.Context = []byte(strings.Repeat("c", rng.Intn(5)))
+			}
+			if rng.Intn(8) == 0 {
+				cc.Type = nil
+			}
+			if rng.Intn(8) == 0 {
+				cc.NodeId = nil
+			}
+			typ, data, _ := pb.MarshalConfChange(cc)
+			emitCD(typ, data)
+			continue
+		}
+		cc := &pb.ConfChangeV2{}
+		if rng.Intn(3) > 0 {
+			cc.Transition = pb.ConfChangeTransition(rng.Intn(3)).Enum()
+		}
+		for k := rng.Intn(5); k > 0; k-- {
+			c := &pb.ConfChangeSingle{Type: pb.ConfChangeType(rng.Intn(4)).Enum(), NodeId: new(uint64(rng.Intn(300)))}
+			if rng.Intn(8) == 0 {
+				c.Type = nil
+			}
+			if rng.Intn(8) == 0 {
+				c.NodeId = nil
+			}
+			cc.Changes = append(cc.Changes, c)
+		}
+		if rng.Intn(4) == 0 {
+			cc.Context = []byte(strings.Repeat("x", rng.Intn(200)))
+		}
+		typ, data, _ := pb.MarshalConfChange(cc)
+		emitCD(typ, data)
+	}
+	emitCD(pb.EntryConfChangeV2, nil)
 }
 
 func containsU(l []uint64, x uint64) bool {
